@@ -183,6 +183,36 @@ def run(n, seed):
                                     continue
                                 findings.append({"property": prop_, "monitor": mon, "signature": {"status": st}, "seed": sd, "events": [case], "event": case,
                                                  "what": "1.0.0->1.1.0: packets with status %s held %d before the migration and %d after it" % (st, tb.get(st, 0), ta.get(st, 0))})
+                ref_amts = [int(p["amount"]) for _, p in li if p["status"] in ("ack_failure", "timed_out")]
+                if sum(ref_amts) < 2 ** 128 and len(ref_amts) <= 200:
+                    # "refundable value recoverable before the upgrade is recoverable after it": an unforced recovery right
+                    # after the migration re-sends exactly the refundable amounts of the legacy store to the staker
+                    from .implworld import decode_msg
+                    from .procs import canon_msgs
+                    h.call({"op": "snap"})
+                    rr = h.call({"op": "execute", "sender": su.users[0], "funds": [],
+                                 "msg": {"recover_pending_ibc_transfers": {"paginated": None, "selected_packets": None, "receiver": None}}})
+                    h.call({"op": "rollback"})
+                    stats["outcomes"]["recover_after_migration:" + outcome(rr)] = stats["outcomes"].get("recover_after_migration:" + outcome(rr), 0) + 1
+                    good = None
+                    if cfg_now.get("stopped"):
+                        good = True       # recovery itself is not gated, but keep the judgement to running contracts
+                    elif not ref_amts:
+                        good = outcome(rr) == "err"
+                    elif outcome(rr) == "ok":
+                        tr = [decode_msg(m) for m in canon_msgs(rr["ok"])]
+                        tr = [m for m in tr if m.get("k") == "transfer"]
+                        good = (len(tr) == 1 and tr[0]["coin"]["amount"] == sum(ref_amts)
+                                and tr[0]["coin"]["denom"] == cfg_now["protocol_chain_config"]["ibc_token_denom"]
+                                and tr[0]["receiver"] == cfg_now["native_chain_config"]["staker_address"])
+                    else:
+                        good = False
+                    if good is False:
+                        for prop_ in ("C18", "C07"):
+                            findings.append({"property": prop_, "monitor": "v110_recoverable", "signature": {"n": min(len(ref_amts), 3)}, "seed": sd,
+                                             "events": [case], "event": case,
+                                             "what": "after 1.0.0->1.1.0 a recovery answers %s; the legacy store held refundable amounts %s for the staker" % (
+                                                 json.dumps(rr)[:200], ref_amts[:6])})
                 if outcome(q) != "ok" or len(q["ok"]["ibc_queue"]) != len(li):
                     findings.append({"property": "C18", "monitor": "v110_readable", "signature": {}, "seed": sd, "events": [case], "event": case,
                                      "what": "IbcQueue after the migration does not show every packet: %r" % (q,)})
